@@ -18,12 +18,15 @@ inductive Tok
   | kw (name : String) (upper : Bool)     -- command name / option keyword, sent upper- or lower-case
   | num (n : Int) (st : NumStyle)         -- integer, spelled "5", "+5" or "5.0"
   | str (s : String)                      -- user data, verbatim
+  | fl (bits : Nat) (spelling canon : String)  -- IEEE double with bit pattern `bits`, sent as `spelling`;
+                                               -- `canon` is its strconv 'f' -1 64 spelling (oracle string)
   deriving DecidableEq, Repr
 
 def normTok : Tok → Tok
   | .kw n _ => .kw n true
   | .num n _ => .num n .plain
   | .str s => .str s
+  | .fl b _ c => .fl b c c
 
 /-- keyword case and numeric spelling are irrelevant, nothing else is -/
 def normalize (ts : List Tok) : List Tok := ts.map normTok
@@ -456,6 +459,121 @@ def covered2 : List String := ["ZAdd", "ZAddNX", "ZAddXX", "ZAddLT", "ZAddGT", "
   "ZInterWithScores", "ZUnionWithScores", "XAdd", "XTrimMaxLen", "XTrimMaxLenApprox", "XTrimMinID", "XTrimMinIDApprox",
   "XRead", "XReadGroup", "XPendingExt", "XAutoClaim", "XAutoClaimJustID", "Sort", "SortRO", "SortStore",
   "GeoSearch", "GeoSearchLocation", "GeoSearchStore"]
+
+/-! ### Value encoding of `any` arguments
+
+go-redis `internal/proto/writer.go` `(*Writer).WriteArg` (hand transcription, cases IN ORDER):
+  nil → ""; string; []byte; int, int8 … int64, uint … uint64 → decimal; float32 → float(float64(v));
+  float64 → strconv.AppendFloat(f, 'f', -1, 64); bool → 1/0; time.Time → RFC3339Nano text;
+  time.Duration → int64 nanoseconds; encoding.BinaryMarshaler → MarshalBinary bytes (error if it fails);
+  net.IP → the raw bytes; anything else → error "redis: can't marshal %T".
+The adapter's `str` (adapter.go): nil → ""; string; []byte; bool → 1/0; time.Time → RFC3339Nano;
+  time.Duration → nanoseconds; BinaryMarshaler → bytes if MarshalBinary succeeds; everything else
+  (and a failing marshaler) → fmt.Sprint(arg).
+Strings produced by Go's strconv / time / fmt are ORACLE strings carried on the op line (trusted:
+computed by the Go standard library in the harness). -/
+
+inductive AnyVal
+  | nil
+  | str (s : String)
+  | bytes (s : String)
+  | int (n : Int)                              -- every signed/unsigned integer kind
+  | f64 (bits : Nat) (f g : String)            -- 'f' -1 64 spelling, fmt %v spelling
+  | f32 (bits : Nat) (fexp g32 : String)       -- 'f' -1 64 of float64(v), fmt %v of the float32
+  | bool (b : Bool)
+  | time (rfc bin : String)                    -- RFC3339Nano text, MarshalBinary bytes
+  | dur (ns : Int)
+  | marshaler (bin sprint : String) (ok : Bool) -- user type implementing BinaryMarshaler (ok: no error)
+  | ip (raw text : String)                     -- net.IP: raw bytes, String() text
+  | stringer (text : String)                   -- any other type; text = fmt.Sprint
+  deriving DecidableEq, Repr
+
+namespace A
+/-- `str(arg)` of adapter.go, as it is -/
+def str : AnyVal → Tok
+  | .nil => S ""
+  | .str s => S s
+  | .bytes s => S s
+  | .int n => N n
+  | .f64 b f g => .fl b g f
+  | .f32 _ _ g32 => S g32            -- fmt.Sprint(float32): shortest float32 spelling
+  | .bool b => N (if b then 1 else 0)
+  | .time rfc _ => S rfc
+  | .dur ns => N ns
+  | .marshaler bin sp ok => if ok then S bin else S sp
+  | .ip _ text => S text             -- fmt.Sprint uses IP.String()
+  | .stringer text => S text
+end A
+
+namespace G
+/-- go-redis `WriteArg`; `none` = "redis: can't marshal" / marshal error (nothing is sent) -/
+def appendArg : AnyVal → Option Tok
+  | .nil => some (S "")
+  | .str s => some (S s)
+  | .bytes s => some (S s)
+  | .int n => some (N n)
+  | .f64 b f _ => some (.fl b f f)
+  | .f32 _ fexp _ => some (S fexp)   -- float64(v) spelled with 'f' -1 64
+  | .bool b => some (N (if b then 1 else 0))
+  | .time rfc _ => some (S rfc)
+  | .dur ns => some (N ns)
+  | .marshaler bin _ ok => if ok then some (S bin) else none
+  | .ip raw _ => some (S raw)
+  | .stringer _ => none
+end G
+
+/-- the values on which both libraries are expected to agree -/
+def AnyVal.common : AnyVal → Bool
+  | .f32 .. => false
+  | .ip .. => false
+  | .stringer .. => false
+  | .marshaler _ _ ok => ok
+  | _ => true
+
+/-- methods taking an `any` value: the argv before the value, how many times the value occurs, the argv after -/
+def anyTemplate (m : String) : Option (List Piece × Nat × List Piece) :=
+  let k := Piece.str "u_k"
+  match m with
+  | "Set" => some ([.kw "SET", k], 1, [])
+  | "SetNX" => some ([.kw "SETNX", k], 1, [])
+  | "SetXX" => some ([.kw "SET", k], 1, [.kw "XX"])
+  | "SetEX" => some ([.kw "SETEX", k, .num 10], 1, [])
+  | "GetSet" => some ([.kw "GETSET", k], 1, [])
+  | "Echo" => some ([.kw "ECHO"], 1, [])
+  | "HSet" => some ([.kw "HSET", k, .str "u_f"], 1, [])
+  | "HMSet" => some ([.kw "HMSET", k, .str "u_f"], 1, [])
+  | "HSetNX" => some ([.kw "HSETNX", k, .str "u_f"], 1, [])
+  | "MSet" => some ([.kw "MSET", k], 1, [])
+  | "MSetNX" => some ([.kw "MSETNX", k], 1, [])
+  | "RPush" => some ([.kw "RPUSH", k, .str "u_a"], 1, [])
+  | "LPush" => some ([.kw "LPUSH", k, .str "u_a"], 1, [])
+  | "RPushX" => some ([.kw "RPUSHX", k, .str "u_a"], 1, [])
+  | "LPushX" => some ([.kw "LPUSHX", k, .str "u_a"], 1, [])
+  | "SAdd" => some ([.kw "SADD", k, .str "u_a"], 1, [])
+  | "SRem" => some ([.kw "SREM", k, .str "u_a"], 1, [])
+  | "SIsMember" => some ([.kw "SISMEMBER", k], 1, [])
+  | "PFAdd" => some ([.kw "PFADD", k, .str "u_a"], 1, [])
+  | "LInsert" => some ([.kw "LINSERT", k, .kw "BEFORE"], 2, [])
+  | "LRem" => some ([.kw "LREM", k, .num 1], 1, [])
+  | "LSet" => some ([.kw "LSET", k, .num 0], 1, [])
+  | "Publish" => some ([.kw "PUBLISH", .str "u_ch"], 1, [])
+  | "XAdd" => some ([.kw "XADD", k, .kw "*", .str "u_f"], 1, [])
+  | "Eval" => some ([.kw "EVAL", .str "u_script", .num 1, k, .str "u_a"], 1, [])
+  | _ => none
+
+def anyMethods : List String := ["Set", "SetNX", "SetXX", "SetEX", "GetSet", "Echo", "HSet", "HMSet", "HSetNX", "MSet",
+  "MSetNX", "RPush", "LPush", "RPushX", "LPushX", "SAdd", "SRem", "SIsMember", "PFAdd", "LInsert", "LRem", "LSet",
+  "Publish", "XAdd", "Eval"]
+
+/-- (adapter argv, go-redis argv) of method `m` called with the `any` value `v` -/
+def bothAny (m : String) (v : AnyVal) : Option (Out × Out) :=
+  match anyTemplate m with
+  | none => none
+  | some (pre, n, post) =>
+    let a := Out.argv (build true pre ++ List.replicate n (A.str v) ++ build true post)
+    match G.appendArg v with
+    | none => some (a, .nothing)
+    | some g => some (a, .argv (build false pre ++ List.replicate n g ++ build false post))
 
 /-! ### Dispatch by method name (used by the correspondence driver) -/
 
